@@ -183,8 +183,20 @@ def check_spa_lists(rep, repo):
     lec_of = lambda proj: BIN('Sub', I(pl_p, BIN('Sub', proj, C(1))), C(1))     # project_lecturers[proj - 1] - 1   (0-based lecturer)
     lec_id = lambda proj: I(pl_p, BIN('Sub', proj, C(1)))
 
+    def unpad(t):
+        # ([pad] + list(table))[proj]  is  table[proj - 1]  for the project numbers 1..n2 (a padded look-up table)
+        if t[0] == 'idx':
+            base = t[1]
+            parts = list(base[1]) if base[0] == 'cat' else ([base[2], base[3]] if (base[0] == 'bin' and base[1] == 'Add') else None)
+            if parts and len(parts) == 2 and parts[0][0] == 'list' and len(parts[0][1]) == 1:
+                tab = parts[1]
+                while tab[0] == 'call' and tab[1] in (S('list'), S('tuple')) and len(tab[2]) == 1:
+                    tab = tab[2][0]
+                return I(tab, BIN('Sub', t[2], C(1)))
+        return t
+
     def lookup_ok(t, proj):
-        return t in (lec_id(proj), lec_of(proj))
+        return unpad(t) in (lec_id(proj), lec_of(proj))
 
     kind = None
     problem = None
@@ -227,7 +239,7 @@ def check_spa_lists(rep, repo):
         if s_[0] == 'comp' and len(s_[1]) == 1 and s_[1][0][0][3] == own:
             kind = 'set'
             proj = s_[1][0][0]
-            if s_[2] != lec_id(proj):
+            if unpad(s_[2]) != lec_id(proj):
                 problem = ('the set collects %s, not the lecturer of the project looked up in the project->lecturer table' % show(s_[2]).replace(show(proj), 'proj'), s_[2])
     if kind is None and c[0] == 'call' and c[1] == S('sorted') and len(c[2]) == 1 and c[2][0][0] == 'accum' and c[2][0][1] in (CALL(S('set'), []), ('list', ())):
         ent = c[2][0][2]
